@@ -185,6 +185,10 @@ func CmdMutSweep(args []string) int {
 	}
 	defer os.RemoveAll(scratch)
 	self, _ := os.Executable()
+	// every mutant recompiles the packages that import the mutated one; those objects must not pile
+	// up in the shared build cache: the children get a hard-linked copy of it that is thrown away
+	goCache, dropCache := scratchGoCache()
+	defer dropCache()
 	var wg sync.WaitGroup
 	sem := make(chan struct{}, *jobs)
 	var mu sync.Mutex
@@ -208,6 +212,9 @@ func CmdMutSweep(args []string) int {
 			os.WriteFile(ovf, ov, 0o644)
 			cmd := exec.Command(self, "check", id, "--tier", "quick")
 			cmd.Env = append(envList(), "GVC_OVERLAY="+ovf, "GVC_VERIF_OUT="+filepath.Join(dir, "out"))
+			if goCache != "" {
+				cmd.Env = append(cmd.Env, "GOCACHE="+goCache)
+			}
 			out, _ := runWithTimeout(cmd, 300*time.Second)
 			s := string(out)
 			switch {
@@ -483,4 +490,34 @@ func genMutants(fset *token.FileSet, pkg *packages.Package, src []byte, fname, f
 		return out[i].Op < out[j].Op
 	})
 	return out
+}
+
+// scratchGoCache clones the go build cache with hard links (no extra space) and returns the clone and
+// a function that removes it. Work on mutated or patched copies of the repository compiles many
+// packages again and again; written to the shared cache those objects fill the disk (130 GB after a
+// day of sweeps). Clones left behind by killed runs are removed first.
+func scratchGoCache() (string, func()) {
+	out, err := exec.Command("go", "env", "GOCACHE").Output()
+	if err != nil {
+		return "", func() {}
+	}
+	src := strings.TrimSpace(string(out))
+	if olds, _ := filepath.Glob(filepath.Join(filepath.Dir(src), "go-build-scratch-*")); len(olds) > 0 {
+		for _, o := range olds {
+			var pid int
+			fmt.Sscanf(filepath.Base(o), "go-build-scratch-%d", &pid)
+			if pid > 0 {
+				if err := exec.Command("kill", "-0", fmt.Sprint(pid)).Run(); err == nil {
+					continue // still running
+				}
+			}
+			os.RemoveAll(o)
+		}
+	}
+	dst := filepath.Join(filepath.Dir(src), fmt.Sprintf("go-build-scratch-%d", os.Getpid()))
+	if err := exec.Command("cp", "-al", src, dst).Run(); err != nil {
+		fmt.Println("warning: could not clone the build cache, the shared one will grow:", err)
+		return "", func() {}
+	}
+	return dst, func() { os.RemoveAll(dst) }
 }
